@@ -2,7 +2,7 @@
 from . import sesscheck as SC
 
 MODULE = "Props.C03"
-PROFILE = {"publish": 18, "ack": 18, "inbound": 1, "connect": 10, "fault": 8, "restart": 4, "call": 1, "response": 1,
+PROFILE = {"wrap": 0.15, "publish": 18, "ack": 18, "inbound": 1, "connect": 10, "fault": 8, "restart": 4, "call": 1, "response": 1,
            "hostile": 0.5, "close": 0.2, "bigbuf": 0.05}
 
 
